@@ -31,6 +31,31 @@ def gen_matrix(rng, U, kind):
             for b in range(a + 1, U):
                 M[a][b] = M[b][a] = base + step * next(it) * (1 if rng.random() < 0.8 else 1000)
         return M
+    if kind == "near10":
+        # tie-FREE weights whose relative differences are far below any sensible tolerance (1e-10 … 1e-13)
+        base = rng.choice([1.0, 2.0, 1e3])
+        vals = rng.sample(range(1, 40 * U * U + 10), U * U)
+        it = iter(vals)
+        for a in range(U):
+            for b in range(a + 1, U):
+                M[a][b] = M[b][a] = base * (1.0 + next(it) * rng.choice([1e-10, 1e-12, 4e-13]))
+        return M
+    if kind == "huge":
+        # finite dissimilarities far above the single-precision range (a squared distance of features ~1e25, a penalty of 1e300)
+        vals = rng.sample(range(1, 9 * U * U + 10), U * U)
+        it = iter(vals)
+        for a in range(U):
+            for b in range(a + 1, U):
+                M[a][b] = M[b][a] = float(next(it)) * rng.choice([1e39, 1e120, 1e300 / (9 * U * U + 10)])
+        return M
+    if kind == "subeps":
+        # every dissimilarity below 1e-20 (distinct): comparisons are still exact
+        vals = rng.sample(range(1, 9 * U * U + 10), U * U)
+        it = iter(vals)
+        for a in range(U):
+            for b in range(a + 1, U):
+                M[a][b] = M[b][a] = float(next(it)) * 1e-24
+        return M
     alpha = {"a1": [3], "a2": [1, 2], "a3": [1, 2, 3], "an": list(range(1, U + 1)),
              "zero": [0, 1, 2], "asym": [1, 2, 3, 4, 5]}[kind]
     for a in range(U):
@@ -74,7 +99,7 @@ def run(rng, tier, res=None, want=("prim", "fit", "semi")):
     lines, obs, metas = [], [], []
 
     kinds = ["a1", "a2", "a2", "a3", "a3", "an", "an", "distinct", "distinct", "real", "real", "zero", "asym",
-             "near", "near", "tinyscale"]
+             "near", "near", "tinyscale", "near10", "near10", "huge", "subeps"]
 
     def viol(prop, msgs, meta):
         for m in msgs[:3]:
@@ -182,7 +207,20 @@ def run(rng, tier, res=None, want=("prim", "fit", "semi")):
                 zeros_ok = metric not in ("squared_chord",) or True
                 pts = [[float(rng.randint(0, 3)) if lattice else rng.choice([rng.uniform(0.2, 4.0), rng.uniform(0.2, 4.0), 0.0])
                         for _ in range(dd)] for _ in range(U)]
+                sparse = cc is None and not lattice and rng.random() < 0.3
+                if sparse:
+                    # sparse histograms / counts: several samples share exact zeros in the same coordinate, tie-free otherwise;
+                    # metrics whose terms are ratios guarded against a zero denominator
+                    metric = rng.choice(["canberra", "canberra", "chi_squared", "squared_chord"]); fn = _dist.DISTANCES[metric]
+                    dd = rng.choice([4, 5, 6])
+                    pts = [[0.0 if rng.random() < 0.5 else rng.uniform(0.5, 9.0) for _ in range(dd)] for _ in range(U)]
+                    res.hit("sparse_features")
                 P_ = np.array(pts)
+                if cc is None and not lattice and not sparse and rng.random() < 0.3:
+                    # double-precision coordinates with a large common offset (time stamps, sensor counters): differences
+                    # between samples are exact in doubles and far below single-precision resolution
+                    P_ = P_ + rng.choice([float(2 ** 25), 1e9, 1.7e9])
+                    res.hit("offset_features")
                 if cc is not None:
                     metric = "euclidean"; fn = _dist.DISTANCES[metric]
                     P_ = np.array([[float(v) for v in r] for r in (cc["X"] + cc["Q"])]); dd = P_.shape[1]
@@ -216,6 +254,17 @@ def run(rng, tier, res=None, want=("prim", "fit", "semi")):
                 It = np.array(rng.sample(range(0, n + 3), nLab)) if (cc is None and rng.random() < 0.4) else None
                 if It is not None:
                     res.hit("feature_mode_with_index_array")
+                if cc is None and rng.random() < 0.25:
+                    # the object once held a matrix (constructor file / setters) and was switched back to its metric
+                    o.pre_computed_distance = True
+                    o.pre_distances = gen_matrix(rng, max(U, n + 2), rng.choice(["a3", "real", "an"]))
+                    if rng.random() < 0.5:
+                        try:
+                            o.fit(np.zeros((nLab, 1)), Y.copy(), *( [np.zeros((nU, 1))] if semi else [] ))
+                        except Exception:
+                            pass
+                    o.pre_computed_distance = False
+                    res.hit("switched_back_from_matrix")
                 if cc is None and rng.random() < 0.3:
                     # the object has a history: it was fitted (and used) on other data of the same size before
                     Xh = np.array([[rng.uniform(0.2, 4.0) for _ in range(dd)] for _ in range(nLab)])
@@ -331,6 +380,17 @@ def run(rng, tier, res=None, want=("prim", "fit", "semi")):
             if Xn.tobytes() != xb_ or Qn.tobytes() != qb_:
                 viol("C07", [f"fit/predict with metric {metric} rewrote non-finite entries of the caller's arrays"], {"stream": "fit", "metric": metric})
             res.hit("c07_nonfinite_entries_untouched")
+        if feature_mode and case % 6 == 3 and metric in ("canberra", "chi_squared", "jaccard") and X.dtype == np.float64:
+            # non-native byte order (data read from a big-endian file): a legitimate numpy array, to be left as it is
+            Xe = X.astype(">f8"); Qe = (Q if nq else np.ones((1, dd))).astype(">f8")
+            xe_, qe_ = Xe.tobytes(), Qe.tobytes()
+            try:
+                oe = SupervisedOPF(distance=metric); oe.fit(Xe, Y.copy()); oe.predict(Qe); oe.predict(Qe)
+            except Exception:
+                pass
+            if Xe.tobytes() != xe_ or Qe.tobytes() != qe_:
+                viol("C07", [f"fit/predict with metric {metric} rewrote a big-endian feature matrix of the caller"], {"stream": "fit", "metric": metric})
+            res.hit("c07_big_endian_untouched")
         if feature_mode and (X.tobytes() != Xb or XU.tobytes() != XUb or Q.tobytes() != Qb):
             viol("C07", [f"fit/predict with metric {metric} modified the caller's feature arrays"], {"stream": "fit", "metric": metric})
         # C09: the same samples alone, permuted, duplicated, after earlier calls
@@ -355,6 +415,19 @@ def run(rng, tier, res=None, want=("prim", "fit", "semi")):
                     msgs9.append(f"the same array object passed twice with different index arrays: {list(first)} then {list(second)}, "
                                  f"fresh arrays give {list(preds)} and its reverse")
                 res.hit("c09_same_buffer_other_indexes")
+            if feature_mode and nq >= 1 and metric in ("euclidean", "log_squared_euclidean", "manhattan"):
+                # a finite sample so far away that every arc weight overflows: its label cannot depend on what was predicted before it
+                try:
+                    farq = np.full((1, dd), 1e200); farq[0][0] = -1e200
+                    alone = o.predict(farq.copy())
+                    for t_ in range(min(nq, 3)):
+                        both = o.predict(np.vstack([Q[t_:t_ + 1].astype(float), farq]))
+                        if both[1] != alone[0]:
+                            msgs9.append(f"a far sample is predicted {alone[0]} alone but {both[1]} after sample {t_} (predicted {both[0]})")
+                            break
+                    res.hit("c09_far_query_supervised")
+                except Exception as ex:
+                    msgs9.append(f"predict raised {type(ex).__name__} on a finite far sample")
             if feature_mode and nq >= 1 and not semi:
                 # a plain list of rows edited between two calls is new data
                 rows_l = [list(map(float, r_)) for r_ in Q]
